@@ -31,3 +31,4 @@
 (declare-fun ecPoint (Int Int Int) Bytes)    ; uncompressed point of a curve
 (declare-fun pkcs1priv (Int) Bytes)          ; PKCS#1 DER of an RSA private key object
 (declare-fun pkcs1pub (Int Int) Bytes)       ; PKCS#1 RSAPublicKey DER of (modulus, public exponent)
+(assert (forall ((v Int) (n Int)) (! (=> (>= n 0) (= (blen (bePad v n)) n)) :pattern ((bePad v n)))))
